@@ -94,11 +94,11 @@ def _run_entry(args):
             out["wall_s"] = time.time() - t0
             return out
         oracles = [ORACLES[p]() for p in pids if p in ORACLES]
-        res = explore(ctx, oracles, max_states=opts.get("max_states"))
+        res = explore(ctx, oracles, max_states=opts.get("max_states") or spec.get("_max_states"))
         param_transitions = 0
         if opts.get("param_pass") and oracles:
             oracles2 = [ORACLES[p]() for p in pids if p in ORACLES]
-            res2 = explore(ctx, oracles2, max_states=opts.get("max_states"), action_rep="param")
+            res2 = explore(ctx, oracles2, max_states=opts.get("max_states") or spec.get("_max_states"), action_rep="param")
             param_transitions = res2["transitions"]
         extra = {}
         for mod_name in opts.get("post", []):
@@ -206,18 +206,69 @@ def _entry_spec_json(entries, name, binding):
 
 # ----------------------------------------------------------------------------------------------- replay
 def replay_sweep_record(rec):
-    """Re-run the single failing transition (or state) of a sweep violation on a fresh environment,
-    without the explorer, and re-evaluate the property's oracle on it. Returns list of violations."""
+    """Re-establish one sweep violation on a fresh environment.
+
+    First WITHOUT the explorer: the recorded history (list of [action index, draw side]) is replayed from
+    reset() with generative steps, then the single failing transition is executed (both draw sides) and the
+    property's oracle is evaluated on just that state / transition / pair.  Only when the violation is of a
+    kind that needs the whole graph (path-level, env-object pass) the scenario's graph is re-explored."""
     from .props_dyn import ORACLES
+    from .explore import Tr, replay_history
+    from .seams import draw_values
     spec = rec["scenario"]
     spec = spec_from_json(spec) if "subnets" in spec else spec
-    ctx = make_ctx(spec, rec["binding"], need_fo=(rec["property"] == "C08"))
     pid = rec["property"]
     if pid not in ORACLES:
         raise HarnessError(f"no sweep oracle for {pid}")
-    # a full (small) exploration of that one scenario with only this oracle armed reproduces the
-    # violation deterministically (BFS order is fixed) and also yields its minimal history
+    ctx = make_ctx(spec, rec["binding"], need_fo=(pid == "C08"))
     oracle = ORACLES[pid]()
-    explore(ctx, [oracle])
+    tr_desc = rec.get("transition")
+    try:
+        oracle.on_scenario(ctx)
+        s = replay_history(ctx, rec.get("history", []))
+        key = s.tensor.tobytes()
+        ms = ctx.decode(key, s.tensor)
+        ctx.parent[key] = None
+        oracle.on_state(ctx, s, key, ms)
+        if tr_desc is not None:
+            a_idx = tr_desc["action_index"]
+            mact = ctx.mactions[a_idx]
+            pair = []
+            for side in (("below",) if mact["type"] == "noop" else ("below", "above")):
+                tr = Tr()
+                tr.s, tr.key, tr.ms, tr.a_idx, tr.action, tr.mact = s, key, ms, a_idx, ctx.actions[a_idx], mact
+                tr.side, tr.draw, tr.extra, tr.obs_fo = side, draw_values(mact["prob"])[side], None, None
+                if hasattr(oracle, "pre_transition"):
+                    oracle.pre_transition(ctx, s, key, tr.action, side)
+                ctx.seam.arm(tr.draw)
+                s2, obs, reward, done, info = ctx.env.generative_step(s, tr.action)
+                tr.ndraws = ctx.seam.calls
+                tr.s2, tr.obs, tr.reward, tr.done, tr.info = s2, obs, reward, done, info
+                tr.key2 = s2.tensor.tobytes()
+                tr.new_state = False
+                tr.ms2 = ctx.decode(tr.key2, s2.tensor)
+                tr.exp = ctx.model.step(ms, mact, tr.draw)
+                oracle.on_transition(ctx, tr)
+                pair.append(tr)
+            if len(pair) == 2:
+                oracle.on_pair(ctx, pair[0], pair[1])
+        hits = [v for v in ctx.violations if v["kind"] == rec["kind"]]
+        if hits:
+            for h in hits:
+                h["replayed"] = "history + single transition, without the explorer"
+            return hits
+    except HarnessError:
+        raise
+    except Exception:
+        pass
+    # graph-level kinds (paid-twice paths, reset / step-limit / step-agreement passes, parameter-vector pass)
+    ctx = make_ctx(spec, rec["binding"], need_fo=(pid == "C08"))
+    res = explore(ctx, [ORACLES[pid]()])
+    from .chk_sweep import POST, PARAM_PASS
+    if pid in PARAM_PASS:
+        explore(ctx, [ORACLES[pid]()], action_rep="param")
+    for mod_name in POST.get(pid, []):
+        import importlib
+        importlib.import_module(f"mc.{mod_name}").post_explore(ctx, res, [pid], {})
     hits = [v for v in ctx.violations if v["kind"] == rec["kind"]]
     return hits or ctx.violations
